@@ -85,6 +85,62 @@ end submodule leaf
 """
 
 
+SUBMODULE_SHADOWING = """module kernel
+  implicit none
+  type :: t
+    integer :: in_module
+  end type t
+  type :: only_in_module
+    integer :: k
+  end type only_in_module
+  interface
+    module subroutine work()
+    end subroutine work
+  end interface
+contains
+  subroutine helper()
+  end subroutine helper
+end module kernel
+submodule (kernel) impl
+  implicit none
+  type :: t
+    integer :: in_submodule
+  end type t
+  type(t) :: v
+  type(only_in_module) :: w
+contains
+  module subroutine work()
+    call helper()
+  end subroutine work
+  subroutine helper()
+  end subroutine helper
+end submodule impl
+"""
+CAPITALISED = """module shapes
+  implicit none
+  type :: point
+    real :: x
+  end type point
+  type :: Circle
+    real :: r
+  end type Circle
+  type, extends(circle) :: Disc
+    real :: fill
+  end type Disc
+  type(CIRCLE) :: unit_circle
+contains
+  subroutine plot()
+    type :: Point
+      integer :: ix
+    end type Point
+    type(point) :: pixel
+    type(Point) :: pixel2
+    type(Circle) :: c
+  end subroutine plot
+end module shapes
+"""
+
+
 def cases():
     for order in (0, 1):
         o = (lambda a, b: a + b) if order == 0 else (lambda a, b: b + a)
@@ -98,6 +154,8 @@ def cases():
     yield ("undeclared", _mod("  subroutine p()\n    type(nowhere) :: v\n  end subroutine p\n"), 0)
     yield ("extension_chain_out_of_order", EXT_CHAIN, 0)
     yield ("nested_submodule", NESTED_SUBMODULE, 0)
+    yield ("capitalised_local_type", CAPITALISED, 0)
+    yield ("submodule_shadowing", SUBMODULE_SHADOWING, 0)
 
 
 def _find(lst, name):
@@ -172,6 +230,34 @@ def check(kind, proj):
         work = _find(leaf.modprocedures if hasattr(leaf, "modprocedures") else [], "work") or _find(leaf.modsubroutines, "work")
         if work is None or getattr(work, "module", True) is True or work.module is False:
             bad.append("module subroutine work in leaf is not paired with its interface declared in the parent submodule mid")
+    elif kind == "submodule_shadowing":
+        sub = proj.submodules[0]
+        v, w = _find(sub.variables, "v"), _find(sub.variables, "w")
+        if isinstance(v.proto[0], str) or v.proto[0].parent is not sub:
+            bad.append("type(t) inside submodule impl resolves to the ancestor module's t although the submodule declares its own t")
+        if isinstance(w.proto[0], str) or w.proto[0].parent is not m:
+            bad.append("type(only_in_module) inside the submodule does not resolve to the ancestor module's type (host association)")
+        work = _find(sub.modsubroutines, "work") or _find(sub.subroutines, "work")
+        own_helper = _find(sub.subroutines, "helper")
+        if work is None or not work.calls or work.calls[0] is not own_helper:
+            bad.append("call helper() inside the submodule resolves to the ancestor module's helper although the submodule has its own")
+        iface = [i for i in m.interfaces if getattr(i, "name", "") == "work"]
+        if work is not None and (getattr(work, "module", True) is True):
+            bad.append("module subroutine work of the submodule is not paired with its interface in the ancestor module")
+    elif kind == "capitalised_local_type":
+        ty = {t.name: t for t in m.types}
+        plot = _find(m.subroutines, "plot")
+        local = _find(plot.types, "Point")
+        for vn in ("pixel", "pixel2"):
+            v = _find(plot.variables, vn)
+            if v.proto[0] is not local:
+                bad.append(f"type({vn}'s type) in plot resolves to {getattr(v.proto[0], 'parent', None) and v.proto[0].parent.name}'s point, not to plot's own type Point (names are case-insensitive)")
+        if _find(plot.variables, "c").proto[0] is not ty["Circle"]:
+            bad.append("type(Circle) in plot does not resolve to the module's type Circle")
+        if _find(m.variables, "unit_circle").proto[0] is not ty["Circle"]:
+            bad.append("type(CIRCLE) does not resolve to type Circle of the same scope")
+        if ty["Disc"].extends is not ty["Circle"]:
+            bad.append("extends(circle) does not resolve to type Circle")
     elif kind == "undeclared":
         p = _find(m.subroutines, "p")
         v = _find(p.variables, "v")
@@ -181,6 +267,11 @@ def check(kind, proj):
 
 
 def search():
+    from bounded import c06
+    deep = c06.deep_use()
+    if deep:
+        return {"confirmed": True, "input": {"files": c06.DEEP}, "actual": deep, "expected": "names re-exported by a used module resolve wherever the USE statement is nested",
+                "how": "bounded search on the real pipeline: module chain z_base <- m_mid <- a_top::outer::inner"}
     for kind, text, order in cases():
         proj = realrun.build_project({"src/m.f90": text}, proc_internals=True, display=["public", "private", "protected"])
         bad = check(kind, proj)
@@ -191,4 +282,4 @@ def search():
 
 
 def count_cases():
-    return sum(1 for _ in cases())
+    return sum(1 for _ in cases()) + 1
